@@ -11,10 +11,22 @@ import (
 	"golang.org/x/tools/go/ssa/ssautil"
 )
 
-const repoDir = "/repo"
+// repoDir is the tree under test: /repo, or a scratch worktree of it when VCHECK_REPO is set (development
+// only: the registered commands never set it).
+var repoDir = func() string {
+	if d := os.Getenv("VCHECK_REPO"); d != "" {
+		return d
+	}
+	return "/repo"
+}()
 const repoMod = "github.com/vbauerster/mpb/v8"
 
-var harnessDir = "/verif/harness"
+var harnessDir = func() string {
+	if d := os.Getenv("VCHECK_HARNESS"); d != "" {
+		return d // development only
+	}
+	return "/verif/harness"
+}()
 
 // overlayFiles maps harness sources into virtual files of the repository's packages.
 // harness/<pkgdir>/<name>.go -> /repo/<pkgdir>/zz_verif_<name>.go  (pkgdir "root" = repository root)
